@@ -1,6 +1,93 @@
-(* C06 - placeholder theorem until Proofs/ElementFacts.v lands. *)
-From Coq Require Import QArith Qabs.
-From BB Require Import Base.Num.
-Theorem C06_far_apart_rounds_differ : forall x y, 1 < Qabs (x - y) -> rnd x <> rnd y.
-Proof. exact rnd_far. Qed.
-Print Assumptions C06_far_apart_rounds_differ.
+(* C06 - an element is valid iff all channels share sample rate and point count.
+   Only statements; every proof is `exact <lemma>` into Proofs/ElementFacts.v. *)
+From Coq Require Import String List ZArith QArith Qabs Bool.
+From BB Require Import Base.Names Base.Num Base.PyList Model.Types Model.Blueprint Model.Forge Model.Element
+  Model.Sequence Proofs.ElementFacts.
+Import ListNotations.
+Open Scope Q_scope.
+
+(* the duration stage (np.allclose with atol = the common rate S >= 1) can never reject what the
+   point-count stage would accept: durations it tells apart round to different counts *)
+Theorem C06_stage2_redundant : forall S d d0,
+  1 <= S -> ~ (Qabs (d - d0) <= S + (1 # 100000) * Qabs d0) -> rnd (d * S) <> rnd (d0 * S).
+Proof. exact stage2_redundant. Qed.
+
+(* both kinds of channel count their points as round(duration * SR) *)
+Theorem C06_blueprint_points : forall b s d,
+  sr b = VNum s -> bp_duration b = Ok d -> bp_points b = Ok (rnd (d * s)).
+Proof. exact blueprint_points. Qed.
+
+Theorem C06_array_points : forall arrs s w,
+  arr_wfm arrs = Ok w -> ~ s == 0 -> (0 <= rle_len w)%Z ->
+  ch_duration (mkCh (KArr arrs (Some (VNum s))) None) = Ok (inject_Z (rle_len w) / s) /\
+  rnd (inject_Z (rle_len w) / s * s) = rle_len w.
+Proof. exact array_points. Qed.
+
+(* validation succeeds iff all channels share the sample rate and the point count,
+   and raises ElementDurationError otherwise *)
+Theorem C06_iff : forall e,
+  edata e <> [] -> Forall chan_wf (avals (edata e)) ->
+  ((exists r, el_validate e = Ok r) <-> (same_rate (avals (edata e)) /\ same_points (avals (edata e)))) /\
+  ((exists r, el_validate e = Ok r) \/ el_validate e = Err EElemDur).
+Proof. exact validate_iff. Qed.
+
+(* an accepted element: every channel has Element.points points, Element.SR is the common rate,
+   Element.duration is the first channel's duration *)
+Theorem C06_accepted : forall e s d,
+  el_validate e = Ok (s, d) ->
+  exists n, el_points e = Ok n /\ el_sr e = Ok s /\ el_duration e = Ok d /\
+    forall c ch, In (c, ch) (edata e) -> ch_points ch = Ok n /\ exists x, ch_sr ch = Ok x /\ val_eqb s x = true.
+Proof. exact validate_accepted. Qed.
+
+(* for durations that are whole numbers of samples the forged arrays of a blueprint channel have exactly
+   BluePrint.points samples, and duration * SR = points *)
+Theorem C06_forged_length : forall b s rs ns d f,
+  sr b = VNum s -> 0 < s -> resolve_waits b = Ok rs -> int_durs s rs = Ok ns -> sum_vals rs = Ok d ->
+  has_wait b = true \/ rs = durs b ->
+  Forall (fun v => exists q m, v = VNum q /\ q * s == inject_Z m) rs ->
+  forge_bp_with b s (durs b) = Ok f ->
+  bp_points b = Ok (fN f) /\ length (fm1 f) = Z.to_nat (fN f) /\ length (fm2 f) = Z.to_nat (fN f) /\
+  d * s == inject_Z (fN f).
+Proof. exact forged_length. Qed.
+
+(* raw-array channels come back as stored *)
+Theorem C06_arrays_as_stored : forall e c arrs asr fl out,
+  In (c, mkCh (KArr arrs asr) fl) (edata e) -> el_get_arrays e false = Ok out -> In (c, OArr arrs None) out.
+Proof. exact arrays_as_stored. Qed.
+
+(* addArray refuses a marker array whose length differs from the waveform's *)
+Theorem C06_add_array_checks_markers : forall e c w SR ms,
+  (exists n a, In (n, a) ms /\ rle_len a <> rle_len w) -> snd (el_add_array e c w SR ms) = Some EValue.
+Proof. exact add_array_checks_markers. Qed.
+
+Theorem C06_add_array_ok : forall e c w SR ms,
+  Forall (fun p => rle_len (snd p) = rle_len w) ms ->
+  exists arrs, el_add_array e c w SR ms = (el_set e c (mkCh (KArr arrs (Some SR)) None), None) /\
+               arr_wfm arrs = Ok w /\
+               forall n a, alookup str_eqb n arrs = Some a -> rle_len a = rle_len w.
+Proof. exact add_array_ok. Qed.
+
+(* a sequence never accepts an element that fails validation *)
+Theorem C06_sequence_validates : forall s pos e s' o,
+  seq_add_element s pos e = (s', o) ->
+  (o = None -> exists r, el_validate e = Ok r) /\ (forall er, o = Some er -> s' = s /\ el_validate e = Err er).
+Proof. exact sequence_validates. Qed.
+
+(* non-vacuity: a two-channel element (blueprint + raw array, 10 points at 100 Sa/s) validates *)
+Example C06_example :
+  let b := mkBp [S_ "ramp"] [Framp] [[VNum 0; VNum 1]] [VNum (1 # 10)] [(0, 0)] [(0, 0)] [] [] (VNum 100) in
+  let e := mkEl [(CInt 1, mkCh (KBp b) None);
+                 (CStr (S_ "A"), mkCh (KArr [(S_ "wfm", [(1 # 2, 10%Z)])] (Some (VNum 100))) None)] in
+  Forall chan_wf (avals (edata e)) /\ el_validate e = Ok (VNum 100, 1 # 10) /\ el_points e = Ok 10%Z.
+Proof. exact element_example. Qed.
+
+Print Assumptions C06_stage2_redundant.
+Print Assumptions C06_blueprint_points.
+Print Assumptions C06_array_points.
+Print Assumptions C06_iff.
+Print Assumptions C06_accepted.
+Print Assumptions C06_forged_length.
+Print Assumptions C06_arrays_as_stored.
+Print Assumptions C06_add_array_checks_markers.
+Print Assumptions C06_add_array_ok.
+Print Assumptions C06_sequence_validates.
